@@ -134,6 +134,37 @@ func (c *Ctx) emitSitesFor(fd *ast.FuncDecl, recv types.Object, comp string, bin
 						}
 					}
 				}
+				// a method of the same value called on the receiver itself: its emissions are the receiver's
+				if g, ok := c.callee(x).(*types.Func); ok && g.Pkg() == c.Types && depth < 2 {
+					if se, isSel := unparen(x.Fun).(*ast.SelectorExpr); isSel {
+						if id, isId := unparen(se.X).(*ast.Ident); isId && c.objOf(id) == recv {
+							if gfd := c.decl(g); gfd != nil && gfd.Body != nil && gfd.Recv != nil && c.recvObj(gfd) != nil {
+								gb := map[types.Object]condLit{}
+								for k, v := range binds {
+									gb[k] = v
+								}
+								for bi, ba := range x.Args {
+									if bp := c.paramObj(gfd, bi); bp != nil {
+										if b, isB := bp.Type().Underlying().(*types.Basic); isB && b.Kind() == types.Bool {
+											gb[bp] = condLit{e: ba, recv: recv}
+										}
+									}
+								}
+								for _, sub := range c.emitSitesFor(gfd, c.recvObj(gfd), comp, gb, depth+1) {
+									conds := append([]condLit{}, stack...)
+									for i := range conds {
+										if conds[i].recv == nil {
+											conds[i].recv = recv
+										}
+									}
+									sub.conds = append(conds, sub.conds...)
+									sub.binds = gb
+									out = append(out, sub)
+								}
+							}
+						}
+					}
+				}
 				if !c.isPkgFunc(x, "encoding/json", "Marshal") || len(x.Args) != 1 {
 					return true
 				}
@@ -164,6 +195,19 @@ func (c *Ctx) emitSitesFor(fd *ast.FuncDecl, recv types.Object, comp string, bin
 				if p, ok := c.apath(arg); ok && p.Root == recv {
 					if comp == "" && len(p.Steps) == 0 || len(p.Steps) == 1 && p.Steps[0] == comp {
 						out = append(out, emitSite{st: derefType(c.typeOf(arg)), conds: conds, pos: arg.Pos(), recv: recv})
+					}
+				}
+				// for _, part := range [...]interface{}{recv.A, recv.B} { json.Marshal(part) }
+				if id, ok := arg.(*ast.Ident); ok {
+					for _, el := range c.rangeElemsOf(fd, c.objOf(id)) {
+						if u, ok := unparen(el).(*ast.UnaryExpr); ok && u.Op == token.AND {
+							el = u.X
+						}
+						if p, ok := c.apath(el); ok && p.Root == recv {
+							if comp == "" && len(p.Steps) == 0 || len(p.Steps) == 1 && p.Steps[0] == comp {
+								out = append(out, emitSite{st: derefType(c.typeOf(el)), conds: conds, pos: el.Pos(), recv: recv})
+							}
+						}
 					}
 				}
 			}
